@@ -8,15 +8,28 @@ use ldpc_toolbox::decoder::{flooding, horizontal_layered};
 use ldpc_toolbox::sparse::SparseMatrix;
 use std::sync::{Arc, Mutex};
 
-fn run_one(arith: &str, sched: &str, h: &SparseMatrix, limit: usize, llrs: &[f64]) -> String {
+/// Runs the calls `warm ++ [(limit, llrs)]` on ONE decoder object; the trace of the last call only is reported
+/// (C03 holds from every incoming state of the decoder object, not only for a freshly built one).
+fn run_one(arith: &str, sched: &str, h: &SparseMatrix, warm: &[(usize, Vec<f64>)], limit: usize, llrs: &[f64]) -> String {
     let log = Arc::new(Mutex::new(Vec::new()));
-    let (h2, l2, log2) = (h.clone(), llrs.to_vec(), log.clone());
+    let (h2, l2, log2, log3) = (h.clone(), llrs.to_vec(), log.clone(), log.clone());
     let (arith, sched) = (arith.to_string(), sched.to_string());
+    let warm = warm.to_vec();
+    macro_rules! go {
+        ($dec:expr) => {{
+            let mut d = $dec;
+            for (wl, wx) in &warm {
+                let _ = d.decode(wx, *wl);
+            }
+            log3.lock().unwrap().clear();
+            d.decode(&l2, limit)
+        }};
+    }
     let r = guarded(move || match (arith.as_str(), sched.as_str()) {
-        ("ms", "F") => flooding::Decoder::new(h2, Trace { inner: IntMinSum, log: log2 }).decode(&l2, limit),
-        ("ms", _) => horizontal_layered::Decoder::new(h2, Trace { inner: IntMinSum, log: log2 }).decode(&l2, limit),
-        (_, "F") => flooding::Decoder::new(h2, Trace { inner: Affine, log: log2 }).decode(&l2, limit),
-        (_, _) => horizontal_layered::Decoder::new(h2, Trace { inner: Affine, log: log2 }).decode(&l2, limit),
+        ("ms", "F") => go!(flooding::Decoder::new(h2, Trace { inner: IntMinSum, log: log2 })),
+        ("ms", _) => go!(horizontal_layered::Decoder::new(h2, Trace { inner: IntMinSum, log: log2 })),
+        (_, "F") => go!(flooding::Decoder::new(h2, Trace { inner: Affine, log: log2 })),
+        (_, _) => go!(horizontal_layered::Decoder::new(h2, Trace { inner: Affine, log: log2 })),
     });
     let mut out = vec![fmt_res(&r)];
     if r.is_ok() {
@@ -91,14 +104,17 @@ fn tree_cases(ctx: &mut Ctx) {
             continue;
         }
         // channel LLRs: a random sign pattern (often far from a codeword), magnitudes 0.25 .. 6
+        // a third of the cases with large magnitudes (the tanh clamps 18 / 9 act on x/2, so |x| up to 30 / 15 is still exact)
+        let name = EXACT[k % EXACT.len()];
+        let big = rng.chance(1, 3);
+        let (lo, hi) = if !big { (0.25, 6.0) } else if name.ends_with("32") { (4.0, 15.0) } else { (8.0, 30.0) };
         let llrs: Vec<f64> = (0..cols)
             .map(|_| {
-                let m = 0.25 + 5.75 * rng.f64_unit();
+                let m = lo + (hi - lo) * rng.f64_unit();
                 if rng.chance(1, 2) { -m } else { m }
             })
             .collect();
         let limit = *rng.pick(&[1usize, 2, 3, 4, 6, 8, 12, 20]);
-        let name = EXACT[k % EXACT.len()];
         let o = run_tree(name, &h, limit, &llrs);
         let input = format!("c03 tree {} {} {}", name, sm(&h), fmt_call(limit, &llrs));
         let iters = o.rsplit(':').next().and_then(|s| s.parse::<usize>().ok()).unwrap_or(0);
@@ -108,6 +124,7 @@ fn tree_cases(ctx: &mut Ctx) {
             if name.ends_with("32") { "f32" } else { "f64" },
             if o.starts_with("S:") { "result-success" } else if o.starts_with("F:") { "result-failure" } else { "result-panic" },
             if iters == 0 { "iterations-0" } else if iters == 1 { "iterations-1" } else { "iterations-2+" },
+            if big { "llr-magnitude-large" } else { "llr-magnitude-moderate" },
         ];
         ctx.emit(&input, &o, iters >= 1, &tags);
     }
@@ -123,11 +140,14 @@ pub fn run(ctx: &mut Ctx, replay: Option<&[String]>) {
                 ctx.emit(&t.join(" "), &o, true, &["replay"]);
                 continue;
             }
-            if t.len() != 6 || t[0] != "c03" {
+            if t.len() < 6 || t[0] != "c03" {
                 continue;
             }
-            let (Some(h), Some((limit, llrs))) = (parse_sm(t[3], t[4]), parse_call(t[5])) else { continue };
-            let o = run_one(t[1], t[2], &h, limit, &llrs);
+            let Some(h) = parse_sm(t[3], t[4]) else { continue };
+            let mut calls: Vec<(usize, Vec<f64>)> = t[5..].iter().filter_map(|c| parse_call(c)).collect();
+            if calls.len() != t.len() - 5 { continue; }
+            let (limit, llrs) = calls.pop().unwrap();
+            let o = run_one(t[1], t[2], &h, &calls, limit, &llrs);
             ctx.emit(&t.join(" "), &o, true, &["replay"]);
         }
         return;
@@ -154,8 +174,20 @@ pub fn run(ctx: &mut Ctx, replay: Option<&[String]>) {
         let limit = if limit == 50 { rng.range(4, 12) } else { limit };
         let arith = if rng.chance(1, 2) { "ms" } else { "aff" };
         let sched = if rng.chance(1, 2) { "F" } else { "L" };
-        let o = run_one(arith, sched, &h, limit, &llrs);
-        let input = format!("c03 {} {} {} {}", arith, sched, sm(&h), fmt_call(limit, &llrs));
+        // a third of the cases: one or two earlier decodes (other LLRs, other limits) on the same decoder object
+        let mut warm: Vec<(usize, Vec<f64>)> = Vec::new();
+        if rng.chance(1, 3) {
+            for _ in 0..rng.range(1, 2) {
+                let (wl, _) = gen_llrs(&mut rng, &h);
+                warm.push((*rng.pick(&[0usize, 1, 2, 3, 5]), wl));
+            }
+            tags.push("decoder-object-reused");
+        } else {
+            tags.push("decoder-object-fresh");
+        }
+        let o = run_one(arith, sched, &h, &warm, limit, &llrs);
+        let input = format!("c03 {} {} {} {}{}", arith, sched, sm(&h),
+            warm.iter().map(|(l, x)| format!("{} ", fmt_call(*l, x))).collect::<String>(), fmt_call(limit, &llrs));
         tags.push(fam);
         tags.push(if arith == "ms" { "arith-intminsum" } else { "arith-affine" });
         tags.push(if sched == "F" { "schedule-flooding" } else { "schedule-layered" });
